@@ -326,7 +326,32 @@ func (s *Session) finish(t *thread) {
 	next.wake <- verdictRun
 }
 
+// normDetail replaces the random suffix of a cache file name
+// (<hash>[-<size>]-<random>[.v1]) by "R": schedules are compared and replayed
+// by their traces, which must not depend on the temp-name generator.
+func normDetail(d string) string {
+	if len(d) < 66 || d[64] != '-' {
+		return d
+	}
+	for i := 0; i < 64; i++ {
+		c := d[i]
+		if !(c >= '0' && c <= '9' || c >= 'a' && c <= 'f') {
+			return d
+		}
+	}
+	rest := d[65:]
+	suffix := ""
+	if strings.HasSuffix(rest, ".v1") {
+		rest, suffix = rest[:len(rest)-3], ".v1"
+	}
+	if i := strings.LastIndexByte(rest, '-'); i >= 0 {
+		return d[:65] + rest[:i+1] + "R" + suffix
+	}
+	return d[:65] + "R" + suffix
+}
+
 func (s *Session) step(t *thread, op, detail string, ready func() bool, lock *Mutex) {
+	detail = normDetail(detail)
 	if t.inObserver {
 		return // harness code running inside the observer is not scheduled
 	}
@@ -353,6 +378,7 @@ func (s *Session) step(t *thread, op, detail string, ready func() bool, lock *Mu
 
 // Step is a scheduling point for the calling goroutine if it is managed.
 func Step(op, detail string) {
+	detail = normDetail(detail)
 	s := cur.Load()
 	if s == nil {
 		return
